@@ -7,6 +7,7 @@ import (
 
 	"verif/harness/internal/batch"
 	"verif/harness/internal/ev"
+	"verif/harness/internal/respec"
 )
 
 // C12 for GENERATED lexers: the C11 grammar generator, but arbitrary byte inputs (including ones
@@ -65,6 +66,42 @@ func c12bCheck(c c11Case, res *batch.Result, run runFunc, r *ev.Recorder) *Failu
 		if f != nil {
 			f.Msg += "\ngrammar:\n" + c.render("g")
 			return f
+		}
+		// Tiling: the text between two returned tokens must be made of matches of (space) rules
+		// (of any start condition); with no space rule there may be no gap at all.
+		prev := 0
+		if bomSkipped && strings.HasPrefix(src, "\xef\xbb\xbf") {
+			prev = 3
+		}
+		for _, tk := range toks {
+			if tk.start > prev && tk.start <= len(src) {
+				gap := src[prev:tk.start]
+				reach := make([]bool, len(gap)+1)
+				reach[0] = true
+				for i := 0; i < len(gap); i++ {
+					if !reach[i] {
+						continue
+					}
+					for ri := range c.Rules {
+						rule := &c.Rules[ri]
+						if !rule.Space {
+							continue
+						}
+						lens, _ := respec.MatchLens(rule.node(), respec.Env{Bytes: c.bytes(), Fold: c.fold(), RefFold: c.fold(), Refs: c.Named}, gap[i:])
+						for _, l := range lens {
+							if l > 0 {
+								reach[i+l] = true
+							}
+						}
+					}
+				}
+				if !reach[len(gap)] {
+					return failf("gap-not-skippable", "the generated lexer skips %q (bytes %d..%d of %q) which no (space) rule matches; grammar:\n%s", gap, prev, tk.start, in, c.render("g"))
+				}
+			}
+			if tk.end > prev {
+				prev = tk.end
+			}
 		}
 		if multiline || invalid {
 			r.Nontrivial("gen\x00" + in + fmt.Sprint(c.Seed))
